@@ -25,6 +25,33 @@ type gv struct {
 func (v *gv) Hashcode() interface{} { return v.K }
 func (v *gv) String() string        { return fmt.Sprintf("%s#%d", v.K, v.Ver) }
 
+// hv is a vertex identified by its hash code, not by its pointer: every API call gets a fresh pointer.
+type hv struct{ ID int }
+
+func (v *hv) Hashcode() interface{} { return v.ID }
+
+// hashableVerts: the int-vertex drivers (dijkstra, trav) use *hv vertices instead of plain ints (chosen per run)
+var hashableVerts bool
+
+func mkV(i int) graph.Vertex {
+	if hashableVerts {
+		return &hv{ID: i}
+	}
+	return i
+}
+
+func idOf(v interface{}) (int, bool) {
+	switch x := v.(type) {
+	case int:
+		return x, true
+	case *hv:
+		if x != nil {
+			return x.ID, true
+		}
+	}
+	return 0, false
+}
+
 type gop struct {
 	Op  string `json:"op"`
 	H   int    `json:"h"`
@@ -312,9 +339,10 @@ func inUnits(d, unit int) int {
 
 // runDijkstra builds the graph through the public API in a random insertion order and records the run.
 func runDijkstra(enc *json.Encoder, n int, w [][]int, src int, r *rand.Rand, unit int) {
+	hashableVerts = r.Intn(2) == 0
 	var g graph.Graph
 	for _, i := range r.Perm(n) {
-		g.Add(i + 1)
+		g.Add(mkV(i + 1))
 	}
 	type edge struct{ a, b, w int }
 	var es []edge
@@ -328,9 +356,9 @@ func runDijkstra(enc *json.Encoder, n int, w [][]int, src int, r *rand.Rand, uni
 	r.Shuffle(len(es), func(i, j int) { es[i], es[j] = es[j], es[i] })
 	for _, e := range es {
 		if e.w == 1 && unit == 1 && r.Intn(2) == 0 {
-			g.AddEdge(e.a, e.b)
+			g.AddEdge(mkV(e.a), mkV(e.b))
 		} else {
-			g.AddEdgeWeighted(e.a, e.b, e.w*unit)
+			g.AddEdgeWeighted(mkV(e.a), mkV(e.b), e.w*unit)
 		}
 	}
 	searchAndRecord(enc, &g, n, w, src, unit)
@@ -338,7 +366,7 @@ func runDijkstra(enc *json.Encoder, n int, w [][]int, src int, r *rand.Rand, uni
 		// the graph object lives on: it is changed through this handle and searched again through a reversed
 		// view that has already been searched once (a search must see the graph as it is now)
 		rv := g.Reverse()
-		rv.Dijkstra(src)
+		rv.Dijkstra(mkV(src))
 		w2 := make([][]int, n)
 		for a := range w {
 			w2[a] = append([]int{}, w[a]...)
@@ -346,14 +374,14 @@ func runDijkstra(enc *json.Encoder, n int, w [][]int, src int, r *rand.Rand, uni
 		for k := 1 + r.Intn(2); k > 0; k-- {
 			a, b := r.Intn(n), r.Intn(n)
 			if w2[a][b] >= 0 && r.Intn(2) == 0 {
-				g.RemoveEdge(a+1, b+1)
+				g.RemoveEdge(mkV(a+1), mkV(b+1))
 				w2[a][b] = -1
 			} else {
 				nw := r.Intn(4)
 				if len(es) > 0 && r.Intn(2) == 0 {
 					nw = es[r.Intn(len(es))].w
 				}
-				g.AddEdgeWeighted(a+1, b+1, nw*unit)
+				g.AddEdgeWeighted(mkV(a+1), mkV(b+1), nw*unit)
 				w2[a][b] = nw
 			}
 		}
@@ -372,14 +400,15 @@ func runDijkstra(enc *json.Encoder, n int, w [][]int, src int, r *rand.Rand, uni
 func searchAndRecord(enc *json.Encoder, g *graph.Graph, n int, w [][]int, src int, unit int) {
 	enc.Encode(dGraph{Ev: "graph", N: n, W: w, Src: src})
 	graph.VerifPopHook = func(v interface{}, d int) {
-		enc.Encode(dPop{Ev: "pop", V: v.(int), D: inUnits(d, unit)})
+		x, _ := idOf(v)
+		enc.Encode(dPop{Ev: "pop", V: x, D: inUnits(d, unit)})
 	}
-	distTo, edgeTo := g.Dijkstra(src)
+	distTo, edgeTo := g.Dijkstra(mkV(src))
 	graph.VerifPopHook = nil
 	res := dResult{Ev: "result", Dist: make([]int, n), Prev: make([]int, n), Paths: make([][]int, n)}
 	for v := 1; v <= n; v++ {
 		res.Dist[v-1] = inUnits(distTo[v], unit)
-		if p, ok := edgeTo[v].(int); ok {
+		if p, ok := idOf(edgeTo[v]); ok {
 			res.Prev[v-1] = p
 		}
 		res.Paths[v-1] = []int{}
@@ -391,15 +420,16 @@ func searchAndRecord(enc *json.Encoder, g *graph.Graph, n int, w [][]int, src in
 				cyclic = true
 				break
 			}
-			p, _ := edgeTo[cur].(int)
+			p, _ := idOf(edgeTo[cur])
 			cur = p
 		}
 		if cyclic {
 			res.Paths[v-1] = []int{-1}
 			continue
 		}
-		for _, x := range g.EdgeToPath(v, edgeTo) {
-			res.Paths[v-1] = append(res.Paths[v-1], x.(int))
+		for _, x := range g.EdgeToPath(mkV(v), edgeTo) {
+			xi, _ := idOf(x)
+			res.Paths[v-1] = append(res.Paths[v-1], xi)
 		}
 	}
 	enc.Encode(res)
@@ -544,11 +574,11 @@ var travUnit = 1
 func buildIntGraph(n int, edges [][]int, r *rand.Rand) *graph.Graph {
 	var g graph.Graph
 	for _, i := range r.Perm(n) {
-		g.Add(i + 1)
+		g.Add(mkV(i + 1))
 	}
 	for _, i := range r.Perm(len(edges)) {
 		e := edges[i]
-		g.AddEdgeWeighted(e[0], e[1], e[2]*travUnit)
+		g.AddEdgeWeighted(mkV(e[0]), mkV(e[1]), e[2]*travUnit)
 	}
 	return &g
 }
@@ -559,21 +589,21 @@ func buildDetour(n int, edges [][]int, r *rand.Rand) *graph.Graph {
 	var g graph.Graph
 	x := n + 1
 	for _, i := range r.Perm(n + 1) {
-		g.Add(i + 1)
+		g.Add(mkV(i + 1))
 	}
 	for v := 1; v <= n; v++ {
 		if r.Intn(2) == 0 {
-			g.AddEdgeWeighted(x, v, r.Intn(3))
+			g.AddEdgeWeighted(mkV(x), mkV(v), r.Intn(3))
 		}
 		if r.Intn(2) == 0 {
-			g.AddEdgeWeighted(v, x, r.Intn(3))
+			g.AddEdgeWeighted(mkV(v), mkV(x), r.Intn(3))
 		}
 	}
 	for _, i := range r.Perm(len(edges)) {
 		e := edges[i]
-		g.AddEdgeWeighted(e[0], e[1], e[2]*travUnit)
+		g.AddEdgeWeighted(mkV(e[0]), mkV(e[1]), e[2]*travUnit)
 	}
-	g.Remove(x)
+	g.Remove(mkV(x))
 	return &g
 }
 
@@ -585,7 +615,7 @@ func kahnOf(g *graph.Graph) (k tKahn) {
 	}()
 	k = tKahn{Order: []int{}}
 	for _, v := range g.KahnSort() {
-		x, _ := v.(int)
+		x, _ := idOf(v)
 		k.Order = append(k.Order, x)
 	}
 	return k
@@ -599,6 +629,7 @@ func runTrav(enc *json.Encoder, n int, edges [][]int, r *rand.Rand, allDecline b
 	// Every other run uses one graph object for all routines (none of them may change it), built by a
 	// detour over a removed vertex; the others build a fresh object per routine.
 	ev.Shared = r.Intn(2) == 0
+	hashableVerts = r.Intn(2) == 0
 	var shared *graph.Graph
 	if ev.Shared {
 		shared = buildDetour(n, edges, r)
@@ -630,8 +661,8 @@ func runTrav(enc *json.Encoder, n int, edges [][]int, r *rand.Rand, allDecline b
 					d.Decline = append(d.Decline, v)
 				}
 			}
-			g.DFS(start, func(v graph.Vertex, next func() error) error {
-				x := v.(int)
+			g.DFS(mkV(start), func(v graph.Vertex, next func() error) error {
+				x, _ := idOf(v)
 				d.Reports = append(d.Reports, x)
 				if decl[x] {
 					return nil
@@ -648,7 +679,8 @@ func runTrav(enc *json.Encoder, n int, edges [][]int, r *rand.Rand, allDecline b
 		for _, c := range g.StronglyConnected() {
 			comp := []int{}
 			for _, v := range c {
-				comp = append(comp, v.(int))
+				ci, _ := idOf(v)
+				comp = append(comp, ci)
 			}
 			ev.SCC = append(ev.SCC, comp)
 		}
@@ -669,7 +701,7 @@ func runTrav(enc *json.Encoder, n int, edges [][]int, r *rand.Rand, allDecline b
 		if len(roots) == 1 {
 			g := buildIntGraph(n, edges, r)
 			distTo, edgeTo := g.TopoShortestPath(g.KahnSort())
-			dj, _ := g.Dijkstra(roots[0])
+			dj, _ := g.Dijkstra(mkV(roots[0]))
 			ev.Topo.Ran = true
 			for v := 1; v <= n; v++ {
 				if d, ok := distTo[v]; ok {
@@ -677,7 +709,7 @@ func runTrav(enc *json.Encoder, n int, edges [][]int, r *rand.Rand, allDecline b
 				} else {
 					ev.Topo.Dist[v-1] = -1
 				}
-				if p, ok := edgeTo[v].(int); ok {
+				if p, ok := idOf(edgeTo[v]); ok {
 					ev.Topo.Prev[v-1] = p
 				}
 				ev.Topo.Dijkstra[v-1] = inUnits(dj[v], travUnit)
